@@ -116,6 +116,17 @@ fn cmd_check(args: &[String]) -> i32 {
         failure = run_random(*w, prop, &cfgs, &params, &mut stats, true);
     }
 
+    // 5. driver F (thorough tiers that ask for it): libFuzzer + AddressSanitizer campaign
+    let fuzz_runs = if tier == Tier::Quick { p.quick.fuzz_runs } else { p.thorough.fuzz_runs };
+    if failure.is_none() && fuzz_runs > 0 && std::env::var("VERIF_NO_FUZZ").is_err() {
+        let out = fi_verif::drivers::fuzzrun::campaign(&vdir, prop, &p.worlds, ((fuzz_runs as f64) * scale) as u64, seed, &mut stats);
+        stats.notes.push(out.note.clone());
+        if let Some(r) = &out.sanitizer_report {
+            stats.notes.push(format!("sanitizer report: {}", r));
+        }
+        failure = out.failure;
+    }
+
     match failure {
         None => {
             finish(&vdir, prop, tier, seed, &stats, t0, 0, replayed);
